@@ -12,16 +12,23 @@ REQUIRED_BRANCHES = [
     "go-scores", "model-float-scores", "score-bits-equal",
     # budget staircase: exact natural-number model compared, logarithmic bound evaluated, float growth
     "budget-log-bound", "budget-float-growth",
-    # histories reached a state where the real planner returns no task
-    "settled",
+    # the exact staircase for a dyadic growth factor compared and its logarithmic bound evaluated; the stuck tier
+    "budget-log-bound-rat", "budget-tier-stuck",
+    # histories reached a state where the real planner returns no task; options inside and outside histOptionsSane
+    "settled", "hist-options-sane", "hist-options-not-sane",
+    # what a real merger passed to the planner (idsDistinct / sizesSane evaluated on it), also with pending deletions
+    "real-planner-input", "real-input-with-deletions",
+    # the score table of the Lean witness livelock_real_scores against the real ScoreSegments
+    "witness-scores",
 ]
 ASSUMPTIONS = [
-    "segment ids are pairwise distinct (idsDistinct; the driver evaluates it on every line; the index allocates ids from an atomic counter). With distinct ids Go's comparison of the Segment interface values in removeSegments (pointer identity) is equality of the model's records and sort.Sort's result is the unique sorted permutation (theorem sorted_perm_unique), whatever algorithm sort.Sort uses",
-    "options are sane for the well-formedness theorems: MaxSegmentSize >= 2 and SegmentsPerMergeTask >= 1 (optionsSane, evaluated by the driver; other options go through the model unchanged but get verdict na); for progress of histories additionally SegmentsPerMergeTask >= 2 (with 1 every task is a one-segment rewrite and a history over budget never settles: observed, reported)",
+    "segment ids are pairwise distinct and 0 <= live <= full (idsDistinct, sizesSane; the driver evaluates them on every line, and the stream `real` evaluates them on every segment list a real writer's merger passed to the planner: bad:assumption-ids-distinct / bad:assumption-sizes-sane; the index allocates ids from an atomic counter). With distinct ids Go's comparison of the Segment interface values in removeSegments (pointer identity) is equality of the model's records and sort.Sort's result is the unique sorted permutation (theorem sorted_perm_unique), whatever algorithm sort.Sort uses",
+    "options are sane for the well-formedness theorems: MaxSegmentSize >= 2 and SegmentsPerMergeTask >= 1 (optionsSane, evaluated by the driver; other options go through the model unchanged but get verdict na); histories are judged for histOptionsSane = optionsSane and SegmentsPerMergeTask >= 2 (theorem spmt_one_never_merges: with 1 no task ever merges two segments; every twelfth generated history is such a one and the driver judges them na)",
     "no int64 overflow in the sums of sizes (the model computes in Int; the generators keep sizes below 2^41 and counts below 10^4)",
     "float64 arithmetic: +,-,*,/ , int<->float conversions and math.Ceil are IEEE-exact and identical in Go and in the Lean driver (CalcBudget is reproduced bit for bit); math.Pow may differ from libm pow in the last places: the model's own scorer is compared with Go's scores within 16 ulp, and wherever the harness can pass Go's scores the model chooses rosters on exactly those numbers",
     "sizes in histories are what the index produces: 0 <= live <= full (sizesSane); executeTask is a sizes-only model of index/merge.go executeMergeTask (merged segment = the live data of its inputs; all-empty tasks produce no segment)",
-    "that the planner never returns a plan consisting only of one-segment rewrites of deletion-free segments (which would repeat forever) depends on the float scorer and is NOT proved: the correspondence run watches for it on every plan (bad:plan-makes-no-progress) and every history must settle (bad:no-quiescence)",
+    "convergence: proved unconditionally only in the form convergence_partial (within #segments + sum of full sizes rounds a history reaches a state with no task OR a state whose plan consists of one-segment rewrites of deletion-free segments). As pinned the second case exists (convergence_FULL_is_false_pinned; with the real scorer's numbers: livelock_real_scores, MaxSegmentsPerTier = 1 and TierGrowth = 100): finding plan-only-noop-singletons. The correspondence run watches for it on every plan (bad:plan-makes-no-progress) and every history must settle (bad:no-quiescence, bad:no-quiescence-noop-loop). With the guard of work/C19/fix-noop-singleton-rosters.diff (regenerated flag BlugeGen.C19.skipNoop) convergence holds at full strength (convergence_repaired)",
+    "budget staircase: budget_logarithmic_rat is about calcBudgetRat, the exact-arithmetic reading of CalcBudget's statements (Gen fact calcBudget.body) for a growth factor num/den; it coincides with the float computation when growth is a dyadic fraction with numerator and denominator below 2^20, sizes are below 2^32 and MaxSegmentsPerTier below 256 (every float operation is then exact) - on those budget lines the driver compares calcBudgetRat with the real CalcBudget; for other growth factors (53-bit mantissas such as 3.3) only the bit-for-bit float transcription calcBudgetF is compared and no bound is claimed; the bound needs growthAtLeast (first tier * (growth - 1) >= 1): below it the tier never grows and the budget is linear (budget_linear_when_tier_stuck, also evaluated on the real function)",
 ]
 TRUSTED = [
     "hand-written model Bluge.MergePlan tied to index/mergeplan by (a) the regenerated guard table BlugeGen.C19 (theorem gen_facts_match_model) and (b) the correspondence streams plan / score / budget / hist against the real mergeplan.Plan, ScoreSegments, CalcBudget",
@@ -34,7 +41,7 @@ EXEC_TIMEOUT = {"quick": 900, "thorough": 3600}
 def signature(rec):
     """stable signature of a failing input, for known_findings.json"""
     v = rec["verdict"]
-    if v.startswith("bad:plan-makes-no-progress"):
+    if v.startswith("bad:plan-makes-no-progress") or v.startswith("bad:no-quiescence-noop-loop"):
         return "plan-only-noop-singletons"
     if v.startswith("bad:no-quiescence"):
         return "history-does-not-settle"
@@ -53,5 +60,5 @@ LEVEL_TEXT = ("Lean 4 theorems about a line-by-line model of mergeplan.plan, for
               "run of the real Plan / ScoreSegments / CalcBudget on generated lists, options and simulated histories")
 LEVEL_NOTE = ("trusted: Lean kernel + propext/Classical.choice/Quot.sound; the hand-written model Bluge.MergePlan, the extractor "
               "go/extract/c19.go and the harness go/harness/c19; float scoring is a parameter of the theorems (not proved about), "
-              "so 'a plan always makes progress' is validated by the correspondence run, not proved")
+              "so 'a plan always makes progress' is, for the pinned roster guard, validated by the correspondence run and not proved (it is false for some options: finding plan-only-noop-singletons)")
 TECHNIQUE = "Lean 4 proof (structural induction over the planner's loops) + extracted guard table + differential correspondence run against the real mergeplan package"
